@@ -39,13 +39,13 @@ class Polynomial(Vector):
                 for (key, value) in args[0].__dict__.items():
                     self.__dict__[key] = value
 
-                # Convert derivatives to class Polynomial if necessary
-                if type(self) != Polynomial:
-                    derivs = {}
+                # Convert derivatives to class Polynomial if necessary; the new
+                # object gets its own dictionaries
+                if type(args[0]) != Polynomial:
+                    self._derivs_ = {}
+                    self._cache_ = {}
                     for (key,value) in args[0].derivs.items():
-                        derivs[key] = Polynomial(value)
-
-                    self._derivs_ = derivs
+                        self.insert_deriv(key, Polynomial(value))
 
         # Otherwise use the Vector class constructor
         else:
